@@ -59,6 +59,8 @@ def run_one(args) -> dict:
                         res["problems"].append(f"{pid}: expected a violation containing '{frag}', got {sorted(new_keys)} errors={errors}")
             elif new_keys and not mut.get("allow_others"):
                 res["problems"].append(f"{pid}: unexpected cross-alarm {sorted(new_keys)}")
+            if mut.get("quiet") and errors:
+                res["problems"].append(f"{pid}: behaviour-preserving variant made the analysis fail: {errors}")
         if res["problems"]:
             res["status"] = "failed"
         return res
